@@ -442,7 +442,10 @@ def r17b(ctx):
     # (1) the selector is told the input paths
     told = [c for c in ps.calls(r'^selector::PathSelector::\w+$') if any('paths' in backslice(ps, [a]).field_names() for a in c.args)]
     setter = lib.body(told[0].path) if told else None
-    resolves = setter is not None and bool([c for x in [setter] + [lib.body(cp) for cp in lib.closures_of(setter.path)] for c in x.calls(r'path::Path::canonicalize$|^std::fs::canonicalize$|dunce::canonicalize$|config::canonical_root$')])
+    # (the setter, or a helper of the selector it calls, resolves the paths)
+    sb = [setter] + [lib.body(cp) for cp in lib.closures_of(setter.path)] if setter is not None else []
+    sb += [hb for x in list(sb) for k in x.calls(r'^selector::PathSelector::\w+$') for hb in [lib.body(k.path)] if hb is not None]
+    resolves = bool([c for x in sb for c in x.calls(r'path::Path::canonicalize$|^std::fs::canonicalize$|dunce::canonicalize$|config::canonical_root$')])
     # (2) what it has learnt is used by the three predicates of the walk: a field written by the setter is read on their side
     def fields_of(x):
         out = set()
